@@ -3,6 +3,7 @@ package msg
 import (
 	"bytes"
 	"fmt"
+	"reflect"
 	"testing"
 
 	"github.com/bluenviron/gomavlib/v3/pkg/message"
@@ -53,7 +54,7 @@ func readGuarded(ti *typeInfo, payload []byte, v2 bool, before, after int) (mess
 
 func TestC04RoundTrip(t *testing.T) {
 	rec := evid.New(t, "C04", "for every message type (shipped + user structs) and both versions: Read(Write(v)) == canonical(v); v2 Write never ends in 0x00 unless 1 byte long and is never empty for non-empty messages; Read(p) == Read(p ++ 0^k) == Read(strip0(p)); bytes beyond the extended size are ignored; v1 accepts exactly the base size; payloads are carved out of a larger sentinel-filled backing array (cap > len) and the whole array must be unchanged after Read; non-trivial = payload shorter than the extended size with cap > len, or all-zero message, or 255-byte message, or extension-only tail; distinct by (type, payload hash, version)")
-	rec.Require("short-payload-with-capacity", "all-zero-message", "v1-wrong-length", "tail-beyond-ext", "zero-appended", "zero-stripped", "has-extension")
+	rec.Require("short-payload-with-capacity", "all-zero-message", "v1-wrong-length", "tail-beyond-ext", "zero-appended", "zero-stripped", "has-extension", "decoded-message-edited-and-encoded-again")
 	tys := types(t)
 	evid.Check(t, rec, len(tys)*evid.N(150, 500), func(t *rapid.T) {
 		ti := tys[rapid.IntRange(0, len(tys)-1).Draw(t, "type")]
@@ -97,6 +98,26 @@ func TestC04RoundTrip(t *testing.T) {
 		}
 		if !ref.EqualMsg(got, canon) {
 			fail("Read(Write(v)) is not the canonical form:\n got  %+v\n want %+v", got, canon)
+		}
+		// a decoded message belongs to the caller: filled with another value and encoded again (a router that edits what
+		// it forwards) it says what it holds now, not what it held when it was decoded
+		{
+			val2 := gen.Value(t, ti.lay)
+			want2, werr := safeWrite(ti.rw, val2.(message.Message), v2)
+			if werr != nil {
+				fail("Write: %v", werr)
+			}
+			wantBytes := append([]byte(nil), want2.Payload...)
+			again, rerr2, _ := readGuarded(ti, p, v2, 0, 0)
+			if rerr2 != nil {
+				fail("Read(Write(v)) failed the second time: %v", rerr2)
+			}
+			reflect.ValueOf(again).Elem().Set(reflect.ValueOf(val2).Elem())
+			out, werr2 := safeWrite(ti.rw, again, v2)
+			if werr2 != nil || !bytes.Equal(out.Payload, wantBytes) {
+				fail("a message decoded from %x, then overwritten with %+v and encoded again gives %x (err %v); a fresh message with the same content gives %x", p, val2, out.Payload, werr2, wantBytes)
+			}
+			cls = append(cls, "decoded-message-edited-and-encoded-again")
 		}
 		if len(p) < size && after > 0 {
 			cls = append(cls, "short-payload-with-capacity")
